@@ -79,6 +79,37 @@ WRAP('B', ep2_blind, (ep2_t r, const ep2_t p), (r, p))
 WRAP('T', ep2_tab, (ep2_t *t, const ep2_t p, int w), (t, p, w))
 WRAP('F', ep2_frb, (ep2_t r, const ep2_t p, int i), (r, p, i))
 
+#include "relic_fpx.h"
+#include "relic_pc.h"
+WRAP('m', fp12_mul_basic, (fp12_t c, const fp12_t a, const fp12_t b), (c, a, b))
+WRAP('m', fp12_mul_lazyr, (fp12_t c, const fp12_t a, const fp12_t b), (c, a, b))
+WRAP('q', fp12_sqr_basic, (fp12_t c, const fp12_t a), (c, a))
+WRAP('q', fp12_sqr_lazyr, (fp12_t c, const fp12_t a), (c, a))
+WRAP('y', fp12_sqr_cyc_basic, (fp12_t c, const fp12_t a), (c, a))
+WRAP('y', fp12_sqr_cyc_lazyr, (fp12_t c, const fp12_t a), (c, a))
+WRAP('k', fp12_sqr_pck_basic, (fp12_t c, const fp12_t a), (c, a))
+WRAP('k', fp12_sqr_pck_lazyr, (fp12_t c, const fp12_t a), (c, a))
+WRAP('F', fp12_frb, (fp12_t c, const fp12_t a, int i), (c, a, i))
+WRAP('i', fp12_inv_cyc, (fp12_t c, const fp12_t a), (c, a))
+WRAP('b', fp12_back_cyc, (fp12_t c, const fp12_t a), (c, a))
+#ifdef ORACLE_CT_ED
+#include "relic_ed.h"
+WRAP('A', ed_add_basic, (ed_t r, const ed_t p, const ed_t q), (r, p, q))
+WRAP('A', ed_add_projc, (ed_t r, const ed_t p, const ed_t q), (r, p, q))
+WRAP('A', ed_add_extnd, (ed_t r, const ed_t p, const ed_t q), (r, p, q))
+WRAP('U', ed_sub_basic, (ed_t r, const ed_t p, const ed_t q), (r, p, q))
+WRAP('U', ed_sub_projc, (ed_t r, const ed_t p, const ed_t q), (r, p, q))
+WRAP('U', ed_sub_extnd, (ed_t r, const ed_t p, const ed_t q), (r, p, q))
+WRAP('D', ed_dbl_basic, (ed_t r, const ed_t p), (r, p))
+WRAP('D', ed_dbl_projc, (ed_t r, const ed_t p), (r, p))
+WRAP('D', ed_dbl_extnd, (ed_t r, const ed_t p), (r, p))
+WRAP('N', ed_neg_basic, (ed_t r, const ed_t p), (r, p))
+WRAP('N', ed_neg_projc, (ed_t r, const ed_t p), (r, p))
+WRAP('Z', ed_norm, (ed_t r, const ed_t p), (r, p))
+WRAP('B', ed_blind, (ed_t r, const ed_t p), (r, p))
+WRAP('T', ed_tab, (ed_t *t, const ed_t p, int w), (t, p, w))
+#endif
+
 void ep_tok(ep_t p, const char *tok);
 void ep_out(const ep_t p);
 
@@ -216,7 +247,70 @@ static void op_ct_trace(int argc, char **argv) {
 	} else fprintf(OUT, "unknown-ct %s\n", f);
 }
 
+/* ct_rel <fn> <j> <k1> <k2> : the same routine on the same base (generator^j) with two secret scalars of the same public length; prints whether the
+ * two operation logs are identical ("same=1") and whether both results agree with the basic algorithm; on a difference the two logs are appended */
+static char LOG1[1 << 17];
+static void op_ct_rel(int argc, char **argv) {
+	if (argc < 5) { fprintf(OUT, "bad-args\n"); return; }
+	const char *f = argv[1];
+	int caught = 0, n1 = 0, n2 = 0, eq = 0;
+	raw_t r; bn_t j, k[2], n; bn_null(j); bn_new(j); bn_null(k[0]); bn_new(k[0]); bn_null(k[1]); bn_new(k[1]); bn_null(n); bn_new(n);
+	raw_parse(&r, argv[2]); raw_to_bn(j, &r);
+	raw_parse(&r, argv[3]); raw_to_bn(k[0], &r);
+	raw_parse(&r, argv[4]); raw_to_bn(k[1], &r);
+	RLC_TRY {
+		if (!strcmp(f, "gt_exp_sec")) {
+			gt_t a, c, d; gt_null(a); gt_new(a); gt_null(c); gt_new(c); gt_null(d); gt_new(d);
+			gt_get_gen(a); fp12_exp(a, a, j);
+			eq = 1;
+			for (int t = 0; t < 2; t++) {
+				start(); gt_exp_sec(c, a, k[t]); stop();
+				if (t == 0) { memcpy(LOG1, LOG, LN + 1); n1 = LN; } else n2 = LN;
+				fp12_exp(d, a, k[t]); eq &= (fp12_cmp(c, d) == RLC_EQ);
+			}
+		} else if (!strcmp(f, "ep2_lwreg") || !strcmp(f, "g2_mul_sec")) {
+			ep2_t p, c, d; ep2_null(p); ep2_new(p); ep2_null(c); ep2_new(c); ep2_null(d); ep2_new(d);
+			ep2_curve_get_gen(p); ep2_mul_basic(p, p, j); ep2_curve_get_ord(n);
+			eq = 1;
+			for (int t = 0; t < 2; t++) {
+				start(); if (f[0] == 'e') ep2_mul_lwreg(c, p, k[t]); else g2_mul_sec(c, p, k[t]); stop();
+				if (t == 0) { memcpy(LOG1, LOG, LN + 1); n1 = LN; } else n2 = LN;
+				bn_mod(j, k[t], n); ep2_mul_basic(d, p, j); eq &= (ep2_cmp(c, d) == RLC_EQ);
+			}
+		} else if (!strcmp(f, "g1_mul_sec")) {
+			ep_t p, c, d; ep_null(p); ep_new(p); ep_null(c); ep_new(c); ep_null(d); ep_new(d);
+			ep_curve_get_gen(p); ep_mul_basic(p, p, j); ep_curve_get_ord(n);
+			eq = 1;
+			for (int t = 0; t < 2; t++) {
+				start(); g1_mul_sec(c, p, k[t]); stop();
+				if (t == 0) { memcpy(LOG1, LOG, LN + 1); n1 = LN; } else n2 = LN;
+				bn_mod(j, k[t], n); ep_mul_basic(d, p, j); eq &= (ep_cmp(c, d) == RLC_EQ);
+			}
+#ifdef ORACLE_CT_ED
+		} else if (!strcmp(f, "ed_monty") || !strcmp(f, "ed_lwreg")) {
+			static int edset = 0;
+			if (!edset) { ed_param_set_any(); edset = 1; }
+			ed_t p, c, d; ed_null(p); ed_new(p); ed_null(c); ed_new(c); ed_null(d); ed_new(d);
+			ed_curve_get_gen(p); ed_mul_basic(p, p, j); ed_curve_get_ord(n);
+			eq = 1;
+			for (int t = 0; t < 2; t++) {
+				start(); if (f[3] == 'm') ed_mul_monty(c, p, k[t]); else ed_mul_lwreg(c, p, k[t]); stop();
+				if (t == 0) { memcpy(LOG1, LOG, LN + 1); n1 = LN; } else n2 = LN;
+				bn_mod(j, k[t], n); ed_mul_basic(d, p, j); eq &= (ed_cmp(c, d) == RLC_EQ);
+			}
+#endif
+		} else { fprintf(OUT, "unknown-ct-rel %s\n", f); return; }
+	} RLC_CATCH_ANY { caught = 1; }
+	stop();
+	if (take_err() || caught) { fprintf(OUT, "err\n"); return; }
+	int same = (n1 == n2) && memcmp(LOG1, LOG, n1) == 0;
+	fprintf(OUT, "same=%d eq=%d n1=%d n2=%d", same, eq, n1, n2);
+	if (!same) { LOG1[n1 > 400 ? 400 : n1] = 0; LOG[n2 > 400 ? 400 : n2] = 0; fprintf(OUT, " log1=%s log2=%s", n1 ? LOG1 : "-", n2 ? LOG : "-"); }
+	fputc('\n', OUT);
+}
+
 const op_t ops_ct[] = {
+	{"ct_rel", op_ct_rel},
 	{"ct_prim", op_ct_prim}, {"ct_trace", op_ct_trace},
 	{NULL, NULL}
 };
